@@ -171,7 +171,7 @@ inductive TK where
   | idpack             -- `get_id_pack(obj)`
   | typeOf             -- `type(obj)`
   | inspect            -- `get_methods(LOCAL_ATTRS, obj)`
-  | probeConn          -- `hasattr(obj, "____conn__")`
+  | probeConn          -- `isinstance(obj, netref.BaseNetref)`: is this table object itself a proxy (of another connection)?
   | modLookup          -- `sys.modules.get(prefix)` in `netref.class_factory` (a lookup, never an import)
   | mkclass            -- the rest of `netref.class_factory(id_pack, methods)`: one method per entry, `type(...)`
   | cleanup            -- `self._local_root.on_disconnect(self)`
@@ -909,6 +909,9 @@ def lookupPV (x : PV) : M Nat :=
     hashKey other
     throwE .keyError
 
+/-- `isinstance(obj, netref.BaseNetref)` in `_handle_inspect` / `_handle_instancecheck` ("keep unwrapping": rpyc over
+rpyc).  Decided by type for values, tuples and this connection's proxies; for a local object it is a question put to
+the object (`isinstance` falls back to reading `obj.__class__`), answered by the environment. -/
 def probeConn (x : PV) : M Bool :=
   match x with
   | .imm _ => pure false
@@ -1263,8 +1266,8 @@ def modelledTouches : List (String × List String) :=
    ("_handle_getattr", ["self._access_attr"]),
    ("_handle_getroot", []),
    ("_handle_hash", ["hash"]),
-   ("_handle_inspect", [".sync_request", "get_methods", "hasattr", "index:self._local_objects", "tuple"]),
-   ("_handle_instancecheck", [".sync_request", "<call>", "hasattr", "index:netref.builtin_classes_cache",
+   ("_handle_inspect", [".sync_request", "get_methods", "index:self._local_objects", "isinstance", "tuple"]),
+   ("_handle_instancecheck", [".sync_request", "<call>", "index:netref.builtin_classes_cache",
       "index:self._netref_classes_cache", "isinstance"]),
    ("_handle_oldslicing", ["<call>", "<splat>", "self._access_attr", "slice"]),
    ("_handle_pickle", ["bytes", "pickle.dumps", "raise:ValueError"]),
